@@ -600,8 +600,10 @@ class ExcelCompiler:
                     child_cell = self.cell_map[child_address]
                     if child_address in needed_cells or ':' in child_address:
                         if (child_cell.address.is_unbounded_range or
+                                cell.address.is_unbounded_range or
                                 getattr(child_cell, 'formula', None)):
-                            # needed to resolve the range when the model is reloaded,
+                            # needed to resolve the range when the model is reloaded
+                            # (and the range it resolves to when it is calculated),
                             # a reload can not rebuild the formula of an array formula
                             needed_cells.add(child_address)
                         walk_precedents(child_cell)
